@@ -138,7 +138,7 @@ theorem invE_step {c s e s'} (h : InvE c s) (hs : step c s e = some s') : InvE c
     simp only [step] at hs; split at hs
     · cases hs; exact invE_frame h rfl rfl rfl rfl rfl rfl
     · cases hs
-  | abort i =>
+  | abort i t =>
     simp only [step] at hs; split at hs
     · cases hs; exact invE_frame h rfl rfl rfl rfl rfl rfl
     · cases hs
@@ -182,7 +182,7 @@ theorem invE_step {c s e s'} (h : InvE c s) (hs : step c s e = some s') : InvE c
       · rename_i i r rest hch
         cases hs
         obtain ⟨e1, e2, e3, e4⟩ := h
-        by_cases hT : c.hasTerm = true ∧ r = .term
+        by_cases hT : isTerminal c s i r = true
         · rw [recvStep_term c s i r rest hT]
           exact invE_frame ⟨e1, e2, e3, e4⟩ rfl rfl rfl rfl rfl rfl
         · by_cases hr : r = .ok
